@@ -494,6 +494,54 @@ def pokm(tier, seed, ci, nc):
             for Pn, Wn in _pw_space(ps, with_bad=False):
                 for args, kw in value_calls(ps, maxk=2):
                     yield ('deccallm', Pn, Wn, args, kw, ps)
+                    if Pn:
+                        # on a method a positional-only selection is admissible only together with `self`
+                        yield ('deccallm', ('self',) + Pn, Wn, args, kw, ps)
+    return _slice(gen(), ci, nc)
+
+
+def pokstacked(tier, seed, ci, nc):
+    """a positional-only and a keyword-only selection made by two stacked decorators, in both orders, including
+    selections that name one parameter for both kinds (must raise ValueError at decoration time, like the direct form)"""
+    univ = U('ab', 2)
+
+    def gen():
+        for ps in univ:
+            ps = _dist_defaults(ps)
+            nmd = [p[0] for p in ps if p[1] in ('po', 'pk', 'ko')]
+            sels = []
+            for assign in itertools.product((0, 1, 2, 3), repeat=len(nmd)):     # 3: both kinds at once
+                Pn = tuple(n for n, a in zip(nmd, assign) if a in (1, 3))
+                Wn = tuple(n for n, a in zip(nmd, assign) if a in (2, 3))
+                if Pn and Wn:
+                    sels.append((Pn, Wn))
+            posn = [p[0] for p in ps if p[1] in ('po', 'pk')]
+            for Pn, Wn in sels:
+                # "in any order in which each step is admissible": the first decorator alone must be admissible
+                p_first_ok = list(Pn) == posn[:len(Pn)]
+                w_first_ok = all(q[1] in ('pk', 'ko') for q in ps if q[0] in Wn)
+                for args, kw in value_calls(ps, maxk=1):
+                    if p_first_ok:
+                        yield ('deccallst', 'pw', Pn, Wn, args, kw, ps)
+                    if w_first_ok:
+                        yield ('deccallst', 'wp', Pn, Wn, args, kw, ps)
+    return _slice(gen(), ci, nc)
+
+
+def pokmforms(tier, seed, ci, nc):
+    """bound methods of the posoargs(end=) / kwoargs(start=) forms: names are recomputed for the bound function"""
+    univ = U('ab', 2)
+
+    def gen():
+        for ps in univ:
+            ps = _dist_defaults(ps)
+            if any(p[1] == 'po' for p in ps):
+                continue
+            nmd = [p[0] for p in ps if p[1] == 'pk']
+            for st in nmd:
+                for args, kw in value_calls(ps, maxk=2):
+                    yield ('deccallendm', st, (), args, kw, ps)
+                    yield ('deccallstartm', st, (), args, kw, ps)
     return _slice(gen(), ci, nc)
 
 
@@ -519,7 +567,7 @@ def poknames(tier, seed, ci, nc):
     return _slice(gen(), ci, nc)
 
 
-STREAMS.update({'bindcall': bindcall, 'callsig': callsig, 'makeup': makeup, 'pok': pok, 'pokm': pokm,
+STREAMS.update({'bindcall': bindcall, 'callsig': callsig, 'makeup': makeup, 'pok': pok, 'pokm': pokm, 'pokmforms': pokmforms, 'pokstacked': pokstacked,
                 'poknames': poknames})
 
 
@@ -601,7 +649,7 @@ def cleanup(tier, seed, ci, nc):
     return _slice(gen(), ci, nc)
 
 
-def cache(tier, seed, ci, nc, maxlen=4, variants=('pok', 'pokpos', 'forger', 'deco')):
+def cache(tier, seed, ci, nc, maxlen=4, variants=('pok', 'pokpos', 'forger', 'deco', 'pok_eq', 'deco_eq')):
     alphabet = ['get:0', 'get:1', 'call:0', 'call:1', 'dropw:0', 'dropw:1', 'dropi:0', 'dropi:1', 'gc']
     rng = _rng(seed, 'cache', ci)
 
